@@ -7,6 +7,7 @@
 import Miden.Lemmas.Pure
 import Miden.Lemmas.Trunc
 import Miden.Lemmas.Memcopy
+import Miden.Lemmas.PipeMem
 import Miden.Generated.StdlibSys
 namespace Miden.C18
 open Miden
@@ -78,6 +79,50 @@ theorem memcopy_exact (env : Env) (fuel : Nat) (vm vm' : Vm) (n r0 w0 : Nat) (re
     vm'.stack = padN 16 rest ∧ vm'.mem = Memcopy.copyFwd vm.ctx n r0 w0 vm.mem ∧ vm'.fmp = vm.fmp ∧
       vm'.ctx = vm.ctx :=
   Memcopy.memcopy_spec env fuel vm vm' n r0 w0 rest hs hrest hr hw h
+
+
+/-! ### `mem::pipe_double_words_to_memory` -/
+
+/-- For every initial hasher state `v` (capacity, rate), start address, number `K` of double words
+    (end address at most 2^32) and EVERY advice tape: a completed execution of the MAST regenerated
+    from stdlib/asm/mem.masm found at least `8K` elements on the tape, consumed exactly those, left
+    memory equal to `PipeMem.pipeMem` (the tape written word by word from `start` upwards), the hasher
+    state of `K` overwrite-mode sponge steps over the consumed elements, the write pointer at the end
+    address, and frame pointer, context and the rest of the stack untouched. -/
+theorem pipe_double_words_to_memory_exact (env : Env) (fuel : Nat) (vm vm' : Vm) (v : List Nat) (start K : Nat)
+    (rest : List Nat) (hv : v.length = 12)
+    (hs : vm.stack = v.reverse ++ start :: (start + 2 * K) :: rest) (hrest : 2 ≤ rest.length)
+    (he : start + 2 * K ≤ 4294967296)
+    (h : Vm.exec env fuel Generated.mem_pipe_double_words_to_memory vm = .ok vm') :
+    8 * K ≤ vm.adv.length ∧ vm'.adv = vm.adv.drop (8 * K) ∧
+      vm'.stack = padN 16 ((PipeMem.pipeState K v vm.adv).reverse ++ (start + 2 * K) :: rest) ∧
+      vm'.mem = PipeMem.pipeMem vm.ctx K start vm.mem vm.adv ∧ vm'.fmp = vm.fmp ∧ vm'.ctx = vm.ctx :=
+  PipeMem.pipe_double_words_spec env fuel vm vm' v start K rest hv hs hrest he h
+
+/-- What was piped can be read back: word `j < 2K` above `start` holds tape elements `4j .. 4j+3`. -/
+theorem piped_memory_holds_the_tape (ctx : Nat) (tape : List Nat) (a : Nat) (m : Mem) (K j : Nat) (hj : j < 2 * K) :
+    (PipeMem.pipeMem ctx K a m tape).read ctx (a + j) = Word.ofList ((tape.drop (4 * j)).take 4) :=
+  PipeMem.pipeMem_read ctx tape a m K j hj
+
+/-- Addresses outside `[start, start + 2K)` are untouched. -/
+theorem piped_memory_frame (ctx : Nat) (tape : List Nat) (a : Nat) (m : Mem) (K b : Nat) (hb : b < a ∨ a + 2 * K ≤ b) :
+    (PipeMem.pipeMem ctx K a m tape).read ctx b = m.read ctx b :=
+  PipeMem.pipeMem_frame ctx tape a m K b hb
+
+/-- From the all-zero state the digest part of the piped hasher state is `Rpo256::hash_elements` of
+    the consumed tape elements - the commitment `pipe_preimage_to_memory` compares. -/
+theorem piped_state_is_hash_elements (K : Nat) (tape : List Nat) (hl : 8 * K ≤ tape.length) :
+    Rpo.digestOf (PipeMem.pipeState K (List.replicate 12 0) tape) = Rpo.hashElements (tape.take (8 * K)) :=
+  PipeMem.pipeState_is_hashElements K tape hl
+
+-- the hypotheses are met and the loop really runs (one double word); a short tape makes it fail
+example : ((Vm.exec {} 20 Generated.mem_pipe_double_words_to_memory
+      { stack := List.replicate 12 0 ++ [100, 102, 5, 6], adv := [1, 2, 3, 4, 5, 6, 7, 8, 9] }).toOption.map
+      (fun v => (v.adv, v.mem.read 0 100, v.mem.read 0 101, v.stack.drop 12)))
+    = some ([9], ⟨1, 2, 3, 4⟩, ⟨5, 6, 7, 8⟩, [102, 5, 6, 0]) := by decide +kernel
+example : (Vm.exec {} 20 Generated.mem_pipe_double_words_to_memory
+      { stack := List.replicate 12 0 ++ [100, 102, 5, 6], adv := [1, 2, 3, 4, 5, 6, 7] }).toOption = none := by
+  decide +kernel
 
 /-- Zero length copies nothing; one more word is one more write after the shorter copy. -/
 theorem copyFwd_zero (ctx r w : Nat) (m : Mem) : Memcopy.copyFwd ctx 0 r w m = m := rfl
